@@ -215,6 +215,20 @@ def cases_c11(types, rng, tier):
                           f"iteration rooted at {p} ({rep}) with D={D} in {t['label']}", "root:" + rep)
         # capacities from too small for the first key to sufficient
         D = T.pick_D(m["depth"])
+        # roots given as separator paths with MULTI-BYTE separators and as packed words; packed target (a key that
+        # fills the word exactly must still be yielded)
+        for p in nodes[:25]:
+            if len(p) > D:
+                continue
+            for rep in ("path233", "path128512", "packed", "json"):
+                src = T.render(s, p, rep) if rep_ok(s, rep) else None
+                if src is None:
+                    continue
+                c.add(t["tid"], f"iter {D} {src} idx {BIG} 3 0 {m['count'] + 5}", iter_expect(s, D, p, "idx", BIG),
+                      f"iteration rooted at {p} ({rep}) with D={D} in {t['label']}", "root:" + rep)
+        if m["bits"] <= 63 and m["depth"] <= 8:
+            c.add(t["tid"], f"iter {D} - packed 0 3 0 {m['count'] + 5}", iter_expect(s, D, (), "packed", 0),
+                  f"nodes::<Packed, {D}>() of {t['label']} (max_bits {m['bits']})", "target:packed")
         full_path = m["length"] + m["depth"]
         caps_idx = list(range(0, m["depth"] + 1))
         caps_path = sorted(set(list(range(0, min(full_path, 12) + 1)) + [full_path - 1, full_path]))
@@ -252,6 +266,21 @@ def cases_c11_wide(c, all_types):
         c.add(w["tid"], f"iter 1 - unit 0 2 0 200000",
               "n=70001 internal1@unit internal1@unit internal1@unit ... internal1@unit internal1@unit internal1@unit extra0",
               "depth-limited iteration of [[_; 2]; 70000]", "wide:full")
+    q = by.get("bits63_cube")
+    if q:
+        s3 = T.tup(q["schema"])
+        top = 2 ** 21 - 1
+        for p in ((top, top, top), (0, 0, 0), (top, 0, 1), (1, top, top - 1)):
+            w, bits = T.packed_of(s3, p)
+            assert bits == 63
+            c.add(q["tid"], f"iter 3 {T.render(s3, p, 'indices')} packed 0 2 0 10", f"leaf3@Q:{w} extra0",
+                  f"iteration into Packed rooted at leaf {p} of [[[_; 2^21]; 2^21]; 2^21]: the 63-bit key fills the word exactly",
+                  "wide:packed63")
+            c.add(q["tid"], f"iter 3 Q:{w} idx {BIG} 2 0 10", f"leaf3@I:{','.join(map(str, p))} extra0",
+                  f"iteration rooted by the 63-bit packed key of leaf {p}", "wide:packed63")
+        w2, _ = T.packed_of(s3, (5, top))
+        c.add(q["tid"], f"iter 2 L:i5,i{top} packed 0 2 0 10", f"internal2@Q:{w2} extra0",
+              "depth-limited (D=2) iteration into Packed rooted at an internal node of the 2^63-leaf cube", "wide:packed63")
     h = by.get("arr_huge")
     if h:
         for i in (255, 256, 65535, 65536, 2 ** 32 - 1, 2 ** 32, 2 ** 32 + 1, 2 ** 63):
